@@ -18,7 +18,20 @@ theorem c03_on_source (c : Cfg) (pre : Nat → Option File) (hist : List (Nat ×
     f.complete = true :=
   c03_any_history_safe taskSem generated_wf_c01_for_c03 generated_wf_c03 c pre hist n p f h hfresh
 
+/-- convergence, instantiated with the semantics record of the current source -/
+theorem c03_converges_on_source (c : Cfg) (hist : List (Nat × Bool)) (m : Nat) :
+    let s := stepN taskSem c m (runHistory taskSem c (fun _ => none) hist)
+    (anyFinalExists c s = true ∧
+      (∀ p f, s.finalOut p = some f → f.fresh = true → f.complete = true) ∧
+      (∀ n, (stepN taskSem c n (restart taskSem (cleanup s))).finalOut = s.finalOut ∧
+            (stepN taskSem c n (restart taskSem (cleanup s))).executed = s.executed) ∧
+      (stepN taskSem c (taskSem.ops.length + 1) (restart taskSem (cleanup s))).status = .done) ∨
+    (anyFinalExists c s = false ∧
+      ∀ n, R (stepN taskSem c n (restart taskSem (cleanup s))) (stepN taskSem c n (freshStart taskSem c s.finalOut))) :=
+  c03_converges taskSem generated_wf_c01_for_c03 generated_wf_c02_for_c03 generated_wf_c03 c hist m
+
 end SciVerif.Tie
+#print axioms SciVerif.Tie.c03_converges_on_source
 #print axioms SciVerif.Tie.generated_wf_c03
 #print axioms SciVerif.Tie.generated_wf_c01_for_c03
 #print axioms SciVerif.Tie.generated_wf_c02_for_c03
